@@ -4,6 +4,7 @@ import (
 	"fmt"
 	"math/big"
 
+	"github.com/taurusgroup/multi-party-sig/pkg/ecdsa"
 	"github.com/taurusgroup/multi-party-sig/pkg/party"
 	"github.com/taurusgroup/multi-party-sig/verif/fw"
 	"github.com/taurusgroup/multi-party-sig/verif/ref"
@@ -157,6 +158,36 @@ func runC08(c *fw.Ctx) {
 			}
 			enc, valid, _ := scen.SigCheck(p, v, Y, msg)
 			c.Violate(p.String()+"/stale-signer-session-yields-signature", "signer %q returned a signature (%s, valid=%v) although signer %q used pre-refresh material", id, enc, valid, stale)
+		}
+	}
+	// CMP: a presignature made before the refresh is still usable by refreshed signers in the online
+	// phase, but an online session in which one signer passes its pre-refresh config must not sign
+	if p == scen.CMP && len(signers) >= 2 && t >= 1 && len(c.Res.Violations) == 0 {
+		ps := scen.NewSession(c, "presign-old", first.Clone().PresignMk(signers, []byte(c.Label("sid", "presign-old"))), nil)
+		ps.Run(c, true)
+		pv, perrs := ps.Results()
+		if len(perrs) == 0 && !ps.CheckCrash(c, "presign") {
+			pre := map[party.ID]*ecdsa.PreSignature{}
+			for id, v := range pv {
+				pre[id] = v.(*ecdsa.PreSignature)
+			}
+			stale := signers[c.S.Draw(len(signers), "stale-online-signer")]
+			mixed := &scen.Material{Proto: p, IDs: prev.IDs, T: prev.T, Cfg: map[party.ID]interface{}{}}
+			for _, id := range ids {
+				mixed.Cfg[id] = prev.Cfg[id]
+			}
+			mixed.Cfg[stale] = first.Cfg[stale]
+			on := scen.NewSession(c, "online-stale", mixed.PresignOnlineMk(pre, msg, []byte(c.Label("sid", "online-stale"))), nil)
+			on.Run(c, true)
+			c.Fault("stale_signer_online_session", 1)
+			ov, _ := on.Results()
+			for id, v := range ov {
+				if on.Nodes[id].Dead {
+					continue
+				}
+				enc, valid, _ := scen.SigCheck(p, v, Y, msg)
+				c.Violate("cmp/stale-signer-online-session-yields-signature", "signer %q returned a signature (%s, valid=%v) from an online session in which signer %q passed its pre-refresh config", id, enc, valid, stale)
+			}
 		}
 	}
 	c.Res.Desc = desc(p, n, t, fmt.Sprintf("epochs=%d signers=%d", epochs, len(signers)))
